@@ -384,6 +384,10 @@ class Ex:
             return z_not(self.contains(b, a, fr))
         if self.is_arr(a) or self.is_arr(b):
             return self.lib.arr_compare(self, CMP[type(op)], a, b)
+        if isinstance(a, VOpaque) or isinstance(b, VOpaque):
+            h = self.cfg.lib_overrides.get(("compare", (a if isinstance(a, VOpaque) else b).kind))
+            if h is not None:
+                return h(self, CMP[type(op)], a, b, fr)
         if isinstance(op, ast.Eq):
             return self.eq(a, b, fr)
         if isinstance(op, ast.NotEq):
